@@ -168,9 +168,9 @@ Definition padded (h : nat) (grow : bool) : bool := adv_height h grow =? h.
 
 Lemma padded_eq h grow : padded h grow = negb (h =? 0) && negb grow.
 Proof.
-  unfold padded, adv_height. destruct h as [|h]; [reflexivity|]. destruct grow; cbn [negb andb Nat.eqb].
-  - apply Nat.eqb_neq. lia.
-  - apply Nat.eqb_refl.
+  unfold padded, adv_height. destruct h as [|h]; [reflexivity|]. destruct grow.
+  - transitivity false; [apply Nat.eqb_neq; lia|reflexivity].
+  - rewrite Nat.eqb_refl. reflexivity.
 Qed.
 
 (* ---- one element, one step --------------------------------------------------------------- *)
@@ -352,7 +352,7 @@ Qed.
 
 Let adv' := (map (pad_row (hS b) grow) (fst adv), snd adv).
 
-Lemma map_repeat {A B} (f : A -> B) (x : A) m : map f (repeat x m) = repeat (f x) m.
+Lemma map_repeat {A B} (f : A -> B) (y : A) m : map f (repeat y m) = repeat (f y) m.
 Proof. induction m; cbn; congruence. Qed.
 
 Lemma dec_len_eq : dec_len eos t slots adv'
@@ -401,6 +401,62 @@ Proof.
   - intros m _. now rewrite map_length, seq_length.
 Qed.
 
+Lemma no_grow_short k : k < pw b -> grow = false -> len (nth k slots dslot) < hS b \/ hS b = 0.
+Proof.
+  intros Hk Eg. set (sl := nth k slots dslot). destruct (hS b) as [|h] eqn:EhS; [now right|left].
+  destruct (S h <=? len sl) eqn:E; [|now apply Nat.leb_gt in E]. exfalso.
+  assert (Hex : existsb (fun sl => S h <=? len sl) (concat (beams b)) = true).
+  { apply existsb_exists. exists sl. split; [|exact E]. apply in_concat. exists slots.
+    split; [apply nth_In; now rewrite (cw_N _ _ _ Hwf)|apply nth_In; now rewrite Hrow]. }
+  rewrite Hgrow in Eg. unfold grow_flag in Eg. rewrite Hex in Eg. discriminate.
+Qed.
+
+(* sizes of the raw extension (no invariant needed) *)
+Lemma cext_len i : i < pw b * V ->
+  len (cext i) <= length (col (cext i)) /\ adv_height (hS b) grow <= length (col (cext i)).
+Proof.
+  intros Hi. set (k := i / V). assert (Hk : k < pw b) by (apply div_lt_rows; lia).
+  destruct (slot_wf k Hk) as (Hl & HhS & _). unfold cext. fold k.
+  pose proof (no_grow_short k Hk) as Hng.
+  set (sl := nth k slots dslot) in *. unfold adv_height.
+  destruct (hS b) as [|h] eqn:EhS; cbn [ext_slot col len clamp_slot].
+  - cbn. lia.
+  - rewrite set_nth_length.
+    destruct grow eqn:Eg.
+    + rewrite app_length, map_length. cbn [length]. lia.
+    + rewrite map_length. destruct (Hng eq_refl) as [H|H]; lia.
+Qed.
+
+(* the valid prefix of the raw extension, after the length correction *)
+Lemma cext_path i : i < pw b * V ->
+  let sl := nth (i / V) slots dslot in
+  firstn (len (cext i) - (if eos_at t sl then 1 else 0)) (col (cext i))
+  = if eos_at t sl then vpath sl else vpath sl ++ [Z.of_nat (i mod V)].
+Proof.
+  intros Hi. set (k := i / V). assert (Hk : k < pw b) by (apply div_lt_rows; lia). cbn zeta. fold k.
+  set (sl := nth k slots dslot). destruct (slot_wf k Hk) as (Hl & HhS & Ht0). fold sl in Hl, HhS, Ht0.
+  set (v := Z.of_nat (i mod V)). unfold cext. fold k sl v.
+  pose proof (no_grow_short k Hk) as Hng. fold sl in Hng.
+  destruct (hS b) as [|h] eqn:EhS.
+  - (* first step: columns are empty *)
+    assert (Ht : t = 0) by (destruct t; [reflexivity|exfalso; now apply (cw_hS _ _ _ Hwf)]).
+    cbn [ext_slot col len]. rewrite Ht, eos_at_0. unfold vpath. rewrite (Ht0 Ht).
+    destruct (len sl); reflexivity.
+  - cbn [ext_slot clamp_slot col len].
+    set (X := if grow then map (clampz V) (col sl) ++ [v] else map (clampz V) (col sl)).
+    assert (HX : firstn (len sl) X = vpath sl).
+    { unfold X, vpath. destruct grow.
+      - rewrite firstn_app_le by (now rewrite map_length). apply firstn_clamp. apply (x_vocab k Hk).
+      - apply firstn_clamp. apply (x_vocab k Hk). }
+    destruct (eos_at t sl).
+    + replace (len sl + 1 - 1) with (len sl) by lia. now rewrite firstn_set_nth_same.
+    + replace (len sl + 1 - 0) with (S (len sl)) by lia.
+      rewrite firstn_set_nth_S; [now rewrite HX|].
+      unfold X. destruct grow eqn:Eg.
+      * rewrite app_length, map_length. cbn. lia.
+      * rewrite map_length. destruct (Hng eq_refl) as [H|H]; lia.
+Qed.
+
 (* the new slot and state of candidate i abstract to the abstract extension *)
 Lemma cnew_alpha i : i < pw b * V ->
   alpha (S t) (cnew i, nth (n * pw b + i / V) innext dstate) = aext t x (acands t x) i.
@@ -412,34 +468,12 @@ Proof.
   assert (Hvr : (0 <= v < Z.of_nat V)%Z) by (unfold v; pose proof (Nat.mod_upper_bound i V); lia).
   (* the valid prefix of the new concrete slot *)
   assert (Hpath : vpath (cnew i) = if eos_at t sl then vpath sl else vpath sl ++ [v]).
-  { unfold cnew, vpath. fold k sl v. cbn [col len sc].
-    destruct (hS b) as [|h] eqn:EhS.
-    - (* first step: columns are empty *)
-      assert (t = 0) by (destruct t; [reflexivity|exfalso; now apply (cw_hS _ _ _ Hwf)]).
-      subst t. rewrite (Ht0 eq_refl). unfold Model.eos_at. cbn [ext_slot col len].
-      destruct eos; cbn; destruct (len sl); reflexivity.
-    - cbn [ext_slot clamp_slot col len].
-      set (X := if grow then map (clampz V) (col sl) ++ [v] else map (clampz V) (col sl)).
-      assert (HX : firstn (len sl) X = vpath sl).
-      { unfold X, vpath. destruct grow.
-        - rewrite firstn_app_le by (now rewrite map_length). apply firstn_clamp. apply (x_vocab k Hk).
-        - apply firstn_clamp. apply (x_vocab k Hk). }
-      destruct (eos_at t sl).
-      + replace (len sl + 1 - 1) with (len sl) by lia. now rewrite firstn_set_nth_same.
-      + replace (len sl + 1 - 0) with (S (len sl)) by lia.
-        rewrite firstn_set_nth_S; [now rewrite HX|].
-        unfold X. destruct grow eqn:Eg.
-        * rewrite app_length, map_length. cbn. lia.
-        * rewrite map_length.
-          assert (Hlt : (S h <=? len sl) = false).
-          { destruct (S h <=? len sl) eqn:E; [|reflexivity]. exfalso.
-            assert (Hex : existsb (fun sl => S h <=? len sl) (concat (beams b)) = true).
-            { apply existsb_exists. exists sl. split; [|exact E]. apply in_concat. exists slots.
-              split; [apply nth_In; now rewrite (cw_N _ _ _ Hwf)|apply nth_In; now rewrite Hrow]. }
-            unfold grow_flag in Hgrow. rewrite Hex in Hgrow. discriminate. }
-          apply Nat.leb_gt in Hlt. lia. }
+  { destruct (cext_len i Hi) as (Hle & _). pose proof (cext_path i Hi) as Hp. fold k sl v in Hp, Hle.
+    unfold cnew, vpath. fold k sl. cbn [col len]. rewrite pad_row_len, pad_row_col.
+    destruct (padded (hS b) grow); [|exact Hp].
+    rewrite firstn_app_le; [exact Hp|]. destruct (eos_at t sl); lia. }
   assert (Hsc : sc (cnew i) = nth i cs None).
-  { unfold cnew. cbn [sc]. destruct (hS b); cbn; reflexivity. }
+  { unfold cnew. cbn [sc]. rewrite pad_row_sc. unfold cext. destruct (hS b); cbn; reflexivity. }
   unfold alpha, Abstract.aext. cbn [fst snd]. fold k.
   rewrite Hpath, Hsc, (afin_x k Hk), (apath_x k Hk). fold sl v.
   (* both sides are [anorm (S t)] of records that differ at most in the state, and the state
@@ -466,33 +500,32 @@ Proof.
 Qed.
 
 Lemma cpad_alpha st : alpha (S t) (cpad, st) = adflt.
-Proof. unfold alpha, cpad, Abstract.anorm, Abstract.alive, vpath. reflexivity. Qed.
+Proof.
+  unfold alpha, Abstract.anorm, Abstract.alive, vpath. cbn [fst snd]. unfold cpad.
+  rewrite pad_row_len, pad_row_sc. reflexivity.
+Qed.
 
 (* ---- facts that do not need the invariant (they hold for frozen elements too) ------------- *)
+Lemma padded_height (c : list Z) : adv_height (hS b) grow <= length c ->
+  next_hS (hS b) grow <= length (if padded (hS b) grow then c ++ [pad] else c).
+Proof.
+  intros H. unfold next_hS, next_height, padded. destruct (adv_height (hS b) grow =? hS b).
+  - rewrite app_length. cbn. lia.
+  - exact H.
+Qed.
+
 Lemma cnew_wf i : i < pw b * V ->
   len (cnew i) <= length (col (cnew i)) /\ next_hS (hS b) grow <= length (col (cnew i)).
 Proof.
-  intros Hi. set (k := i / V). assert (Hk : k < pw b) by (apply div_lt_rows; lia).
-  destruct (slot_wf k Hk) as (Hl & HhS & _). unfold cnew. fold k. cbn [col len].
-  set (sl := nth k slots dslot) in *. unfold next_hS.
-  destruct (hS b) as [|h] eqn:EhS; cbn [ext_slot col len clamp_slot].
-  - cbn. destruct (eos_at t sl); lia.
-  - rewrite set_nth_length. destruct grow eqn:Eg.
-    + rewrite app_length, map_length. cbn [length]. destruct (eos_at t sl); lia.
-    + rewrite map_length. split; [|lia].
-      assert (Hlt : (S h <=? len sl) = false).
-      { destruct (S h <=? len sl) eqn:E; [|reflexivity]. exfalso.
-        assert (Hex : existsb (fun sl => S h <=? len sl) (concat (beams b)) = true).
-        { apply existsb_exists. exists sl. split; [|exact E]. apply in_concat. exists slots.
-          split; [apply nth_In; now rewrite (cw_N _ _ _ Hwf)|apply nth_In; now rewrite Hrow]. }
-        unfold grow_flag in Hgrow. rewrite Hex in Hgrow. discriminate. }
-      apply Nat.leb_gt in Hlt. destruct (eos_at t sl); lia.
+  intros Hi. destruct (cext_len i Hi) as (H1 & H2). unfold cnew. cbn [col len].
+  rewrite pad_row_len, pad_row_col. split; [|now apply padded_height].
+  destruct (padded (hS b) grow); [rewrite app_length; cbn|]; destruct (eos_at t _); lia.
 Qed.
 
 Lemma cpad_wf : len cpad <= length (col cpad) /\ next_hS (hS b) grow <= length (col cpad).
 Proof.
-  unfold cpad, next_hS. cbn [len col]. rewrite repeat_length. split; [lia|].
-  destruct (hS b); [lia|]. destruct grow; lia.
+  unfold cpad. rewrite pad_row_len, pad_row_col. unfold cpad0. cbn [len col]. split; [lia|].
+  apply padded_height. rewrite repeat_length. unfold adv_height. destruct (hS b); [lia|]. destruct grow; lia.
 Qed.
 
 Lemma to_width_id : t <> 0 -> to_width topk width (hS b) slots = slots.
@@ -527,7 +560,7 @@ Proof.
   - rewrite elem_step_frozen by exact Ef. intros Hin. apply in_map_iff in Hin.
     destruct Hin as (s & <- & Hs). cbn [len col]. rewrite app_length. cbn [length].
     destruct (cw_slot _ _ _ Hwf n s Hn Hs) as (H1 & H2 & _). split; [lia|].
-    unfold next_hS. destruct (hS b); [lia|]. destruct grow; lia.
+    rewrite next_hS_eq. destruct (hS b); lia.
   - rewrite elem_step_fst by exact Ef. intros Hin. apply in_app_or in Hin. destruct Hin as [Hin|Hin].
     + apply in_map_iff in Hin. destruct Hin as (i & <- & Hi). apply cnew_wf.
       destruct ind_facts as (_ & _ & Hlt). now apply Hlt.
@@ -635,7 +668,7 @@ Proof.
   - rewrite step_form. cbn [beams]. now rewrite !map_length, seq_length.
   - now rewrite pw_step.
   - intros n Hn. rewrite cbeam_step, pw_step by exact Hn. unfold estep. now apply (elem_step_fst_length N).
-  - intros _. rewrite step_form. cbn [hS]. unfold next_hS. destruct (hS b); [lia|]. destruct grow; lia.
+  - intros _. rewrite step_form. cbn [hS]. rewrite next_hS_eq. destruct (hS b); lia.
   - discriminate.
   - intros n sl Hn Hin. rewrite cbeam_step in Hin by exact Hn.
     destruct (elem_step_slot_wf N t b n Hwf Hn grow frz eq_refl sl Hin) as (H1 & H2).
